@@ -139,6 +139,12 @@ class HttpRelayClient(RelayPoolClient):
             logging.log_exception(__name__)
             reply = Reply('451', '4.3.0 Connection failed')
             self._fail_request(result, reply)
+        except Exception as exc:
+            # Whatever else goes wrong, the attempt must not be left waiting.
+            if not result.ready():
+                result.set_exception(exc)
+            self._close_conn()
+            raise
 
     def _fail_request(self, result, reply):
         # The attempt must always end with a result or a relay error.
